@@ -171,3 +171,65 @@ func floodVers(scheme, version string, n int) (calls int) {
 	}
 	return calls
 }
+
+// heldView is a pool parsed once and then kept: what a long-lived caller holds
+// on to while the process goes on parsing other texts.
+type heldView struct {
+	vs, rs [][]any
+}
+
+func (h *heldView) V(e, i int) (any, bool) {
+	if e >= len(h.vs) || i >= len(h.vs[e]) {
+		return nil, false
+	}
+	return h.vs[e][i], h.vs[e][i] != nil
+}
+
+func (h *heldView) R(e, i int) (any, bool) {
+	if e >= len(h.rs) || i >= len(h.rs[e]) {
+		return nil, false
+	}
+	return h.rs[e][i], h.rs[e][i] != nil
+}
+
+// HoldPool parses the pool of a spec and keeps the values.
+func HoldPool(spec *Spec) (*heldView, error) {
+	ecos, err := resolveEcos(spec)
+	if err != nil {
+		return nil, err
+	}
+	h := &heldView{vs: make([][]any, len(ecos)), rs: make([][]any, len(ecos))}
+	for e, ep := range spec.Ecos {
+		h.vs[e] = make([]any, len(ep.Versions))
+		h.rs[e] = make([]any, len(ep.Ranges))
+		for i, s := range ep.Versions {
+			if v, err := guardVersion(ecos[e], s); err == nil && v != nil {
+				h.vs[e][i] = v
+			}
+		}
+		for i, s := range ep.Ranges {
+			if r, err := guardRange(ecos[e], s); err == nil && r != nil {
+				h.rs[e][i] = r
+			}
+		}
+	}
+	return h, nil
+}
+
+// ObserveHeld renders everything observable on the held values now.
+func ObserveHeld(spec *Spec, h *heldView) ([]PoolObs, error) {
+	ecos, err := resolveEcos(spec)
+	if err != nil {
+		return nil, err
+	}
+	return observePool(spec, ecos, h), nil
+}
+
+// ObserveHeldAny is ObserveHeld for a value that travelled as an interface.
+func ObserveHeldAny(spec *Spec, h interface{}) ([]PoolObs, error) {
+	hv, ok := h.(*heldView)
+	if !ok {
+		return nil, fmt.Errorf("not a held pool")
+	}
+	return ObserveHeld(spec, hv)
+}
